@@ -158,6 +158,12 @@ pub fn arena_crosscheck(d: &Dump, nc: usize) -> Result<(), String> {
     }
     let nbytes = (nc + 7) / 8;
     for (ai, a) in d.archetypes.iter().enumerate() {
+        if nbytes == 0 {
+            // An empty registry has zero-length identifiers: no allocation behind them.
+            let (p, cap) = a.entity_identifier_column;
+            check_col(ai, "entity identifier", p, cap, 16, 8, a.length)?;
+            continue;
+        }
         match arena::live_block_at(a.identifier_addr) {
             Some((size, align)) => {
                 if size != a.identifier_capacity || align != 1 {
